@@ -455,11 +455,11 @@ def check_ir(c, ref, swap):
     check_post(c, xref, n, g=cfg, nodes=nodes + [cfg.exit_node], real=n + 1 if sinks else n, wk=wk)
 
 
-def check_graph(p, n, adj, variant, parts=("dom", "post", "ir")):
+def check_graph(p, n, adj, variant, parts=("dom", "post", "ir"), budget=20):
     from vf.core import cpu_limit, CpuTimeout
     c = Case(p, n, adj, variant)
     try:
-        with cpu_limit(20):
+        with cpu_limit(budget):
             ref = Ref(n, adj)
             if "dom" in parts:
                 check_dominators(c, ref)
@@ -471,7 +471,12 @@ def check_graph(p, n, adj, variant, parts=("dom", "post", "ir")):
                 if any(bin(m).count("1") == 2 for m in adj):
                     check_ir(c, ref, True)
     except CpuTimeout:
-        c.bad("hang", "analysis did not finish within 20 CPU seconds", part="all")
+        if budget == 20:
+            # a watchdog expiry must reproduce before it is believed (a collector pause in a long-lived worker has tripped it once in
+            # 10^8 evaluations): decide with a fresh run of the same graph and a budget three times as large
+            p.count("watchdog_expiries_retried")
+            return check_graph(p, n, adj, variant, parts, budget=60)
+        c.bad("hang", "analysis did not finish within 60 CPU seconds (second run; the first was stopped after 20)", part="all")
 
 
 # ------------------------------------------------------------------------------------------------ workers / run
